@@ -198,7 +198,23 @@ func (fr *Frame) callVals1(c *ssa.CallCommon, fv *Val, args []*Val, argVals []ss
 		vc.externals["uncontracted "+full] = true
 	} else {
 		vc.externals[full] = true
-		fr.externEffects(callee, args)
+		// a pointer boxed into an interface argument (errors.As(err, &target), json.Unmarshal(b, &v)) is written through as well
+		eargs := append([]*Val{}, args...)
+		for _, av := range argVals {
+			if mi, ok := av.(*ssa.MakeInterface); ok {
+				if _, isPtr := mi.X.Type().Underlying().(*types.Pointer); isPtr {
+					if al, ok := mi.X.(*ssa.Alloc); ok {
+						if l := fr.locOf(al); l != nil && l.kind != "struct" {
+							// a local cell: forget its content
+							fr.storeLoc(l, fr.freshVal("extcell", deref(al.Type())).T)
+						}
+					} else if v, ok := fr.vals[mi.X]; ok {
+						eargs = append(eargs, v)
+					}
+				}
+			}
+		}
+		fr.externEffects(callee, eargs)
 	}
 	if rt == nil {
 		return nil
